@@ -393,6 +393,9 @@ def moved_block(a: list, b: list, cands: set) -> bool:
         [t for t in a if t not in cands] == [t for t in b if t not in cands] and any(t in cands for t in a)
 
 
+SHELL_CONTROL = ("||", "&&", "|", "&", ";", "(", ")", "<", ">", "`", "$(", "\n", "#", "'", '"', "\\")
+
+
 def explain(sh: Shard, case, ref, sf):
     """Smallest set of listed mechanisms whose prediction equals StreamFlow's observation, or None."""
     app = applicable(case, ref)
@@ -400,6 +403,16 @@ def explain(sh: Shard, case, ref, sf):
         for mechs in itertools.combinations(app, n):
             if same(predict(sh, case, ref, mechs), sf):
                 return mechs
+    # composite-binding-unescaped, failure form: a raw (unquoted) token of an array/record binding that is or
+    # contains a shell control operator / quote changes how `sh` parses the WHOLE job line (`||`, `;`, `(`, an
+    # unbalanced quote ...), so the job fails in ways a one-line shell prediction cannot reproduce exactly
+    # (redirections, output collection).  Structural predicate: the listed mechanism is applicable, StreamFlow
+    # FAILED where the reference ran, and at least one token the mechanism leaves raw carries such an operator.
+    if sf.get("status") != "ok" and "composite" in app:
+        raw = composite_candidates(case["tool"], case["job"]) & set(ref.get("argv") or [])
+        if any(any(op in tok for op in SHELL_CONTROL) for tok in raw):
+            sh.count("composite_failure_form_classified")
+            return ("composite",)
     # the items of an array that is not bound itself are placed by (position, name) instead of before the named inputs
     if sf.get("status") == "ok" and "ShellCommandRequirement" not in case["tool"]["requirements"]:
         blocks = unbound_array_tokens(case["tool"], case["job"])
